@@ -156,3 +156,21 @@ def run_trace_shards(tag, shard_files, timeout=1800, heap="3g", par=16):
                 _, tid, n, nv = json.loads(line).split("|", 3)
                 dones.append({"tid": int(tid), "n": int(n), "nv": json.loads(nv)})
     return fails, dones, time.time() - t0
+
+
+def pick_walks(tr, seed):
+    """TR lines of a simulation run with Emit="walk": consecutive lines sharing
+    hist[:-1] are the alternative final steps of one random walk; keep one."""
+    import random
+    rng = random.Random(seed)
+    out, group, key = [], [], None
+    for h in tr:
+        k = json.dumps(h[:-1], sort_keys=True)
+        if k != key and group:
+            out.append(rng.choice(group))
+            group = []
+        key = k
+        group.append(h)
+    if group:
+        out.append(rng.choice(group))
+    return out
